@@ -37,10 +37,11 @@ Pool1 == { V(sp, <<s>>, {}) : sp \in {<<>>, <<SpReg>>, <<SpNum>>, <<SpInd, SpReg
          \* one-element disallowed combinations: the register alternative of the set is excluded
          \cup { V(sp, <<s>>, {<<18>>, <<82>>, <<113>>, <<226>>, <<194>>}) : sp \in {<<>>, <<SpNum>>}, s \in {SA, SE, SG, SN, SL} }
 \* "void": an operand slot with nothing in it (a stray, doubled or leading comma) - no alternative accepts it and it still counts as a slot
-Texts1 == { <<>>, <<"num", "void">>, <<"void", "num">>, <<"r", "void">>, <<"void", "r">> } \cup { <<t>> : t \in {"r", "r2", "[r]", "[r+n]", "[n]", "[[n]]", "r+n", "key", "num", "lab", "{n}", "hexa", "chra", "r++", "@r", "-[r]", "bignum", "r+key", "++r"} }
+Texts1 == { <<>>, <<"num", "void">>, <<"void", "num">>, <<"r", "void">>, <<"void", "r">> } \cup { <<t>> : t \in {"r", "r2", "[r]", "[r+n]", "[n]", "[[n]]", "r+n", "key", "num", "lab", "{n}", "hexa", "chra", "r++", "@r", "-[r]", "bignum", "r+key", "++r", "key+n", "keyjunk"} }
 \* two-operand variants
 Sp2 == << A(210, "register", FALSE, FALSE), A(211, "numeric", FALSE, FALSE) >>
 Pool2 == { V(sp, <<s1, s2>>, d) : sp \in {<<>>, <<Sp2>>}, s1 \in {SA, SE, SC}, s2 \in {SA, SD, SH},
                                   d \in {{}, {<<18, 17>>, <<82, 68>>}, {<<19, 130>>, <<18, 19>>, <<50, 17>>}} }
 Texts2 == { <<"r", "void", "num">>, <<"r", "num", "void">>, <<"void", "r", "num">>, <<"r", "void">>, <<"void", "num">> } \cup { <<a, b>> : a \in {"r", "key", "num", "[r+n]", "r+n"}, b \in {"r", "key", "num", "lab"} }
+          \cup { <<"key+n", "num">>, <<"r", "key+n">>, <<"keyjunk", "num">> }
 =============================================================================
